@@ -458,7 +458,8 @@ def cascade_string(kinds, orphan=False):
 class Rel:
     """one direction of a relationship, as the model sees it"""
 
-    def __init__(self, cls, attr, target, shape, cascade, orphan, rev):
+    def __init__(self, cls, attr, target, shape, cascade, orphan, rev, virtual=False):
+        self.virtual = virtual  # reverse side of a unidirectional relationship: model only
         self.cls, self.attr, self.target = cls, attr, target
         self.shape = shape  # "o2m" | "m2o" | "m2m" | "o2o"  (o2o = scalar holding side of a one-to-one)
         self.cascade = frozenset(cascade)
@@ -472,7 +473,8 @@ class Rel:
 
 def c39_mapping(kind, fwd, fwd_orphan, back, second=None, second_orphan=False):
     """kind in Z1 (A -bs-> B -cs-> C), Z2 (self-referential N.kids / N.par),
-    Z3 (many-to-many L.rs / R.ls), Z5 (one-to-one A.b / B.a).
+    Z3 (many-to-many L.rs / R.ls), Z5 (one-to-one A.b / B.a), Z6 (Z1 without any
+    backref: unidirectional one-to-many chain).
     fwd / back / second are iterables of cascade names.  Returns (registry, classes, rels)."""
     import sqlalchemy as sa
     from sqlalchemy import orm
@@ -522,7 +524,68 @@ def c39_mapping(kind, fwd, fwd_orphan, back, second=None, second_orphan=False):
         mk("B", a_id=sa.Column(sa.ForeignKey("a.id")))
         rel("A", "b", "B", "o2o", fwd, fwd_orphan, "a", uselist=False)
         rel("B", "a", "A", "m2o", back, False, "b")
+    elif kind == "Z6":
+        mk("A")
+        mk("B", a_id=sa.Column(sa.ForeignKey("a.id")))
+        mk("C", b_id=sa.Column(sa.ForeignKey("b.id")))
+        second = fwd if second is None else second
+        for cls, attr, target, casc, orph, rev in (("A", "bs", "B", fwd, fwd_orphan, "_a"),
+                                                   ("B", "cs", "C", second, second_orphan, "_b")):
+            classes[cls].__mapper__.add_property(attr, orm.relationship(
+                classes[target], cascade=cascade_string(casc, orph)))
+            rels.append(Rel(cls, attr, target, "o2m", casc, orph, rev))
+            rels.append(Rel(target, rev, cls, "m2o", (), False, attr, virtual=True))
     else:
         raise ValueError(kind)
     reg.configure()
     return reg, classes, rels
+
+
+# --------------------------------------------------------------------------
+# C49: inheritance hierarchies (4 levels, all declared before mapper configuration) with
+# Mutable columns on ancestors.  Module globals so that instances pickle by reference.
+# --------------------------------------------------------------------------
+_C49H = {}
+
+
+def c49_hierarchy():
+    """single-table (prefix S) and joined-table (prefix J) hierarchies
+    Node -> Child -> GrandChild -> GreatGrandChild; ``d`` (MutableDict/JSON) is mapped on
+    Node, ``l`` (MutableList/JSON) on Child."""
+    if _C49H:
+        return _C49H
+    import sqlalchemy as sa
+    from sqlalchemy import orm
+    from sqlalchemy.ext.mutable import MutableDict, MutableList
+
+    reg = orm.registry()
+    out = {}
+    for prefix, joined in (("S", False), ("J", True)):
+        t = prefix.lower()
+        names = ["Node", "Child", "GrandChild", "GreatGrandChild"]
+        classes = []
+        for depth, nm in enumerate(names):
+            cname = prefix + nm
+            d = {"__mapper_args__": {"polymorphic_identity": cname}}
+            if depth == 0:
+                d.update(__tablename__=t + "node", id=sa.Column(sa.Integer, primary_key=True),
+                         kind=sa.Column(sa.String(30)), d=sa.Column(MutableDict.as_mutable(sa.JSON)))
+                d["__mapper_args__"]["polymorphic_on"] = d["kind"]
+                bases = (object,)
+            else:
+                bases = (classes[-1],)
+                if joined:
+                    d.update(__tablename__=t + nm.lower(),
+                             id=sa.Column(sa.ForeignKey(classes[-1].__table__.c.id), primary_key=True))
+                if depth == 1:
+                    d["l"] = sa.Column(MutableList.as_mutable(sa.JSON))
+            cls = type(cname, bases, d)
+            cls.__module__ = __name__
+            cls.__qualname__ = cname
+            globals()[cname] = cls
+            reg.mapped(cls)
+            classes.append(cls)
+        out[prefix] = classes
+    reg.configure()
+    _C49H.update(reg=reg, hier=out)
+    return _C49H
